@@ -80,6 +80,7 @@ pub const EDITS: &[EditClass] = &[
     ec("visualize_deps", EditKind::Config, "--visualize-deps / visualizeDeps off <-> on (dependency-graph.txt/.dot are then part of what a generation writes: they name the line of every command, so moving code matters)"),
     ec("unused_type", EditKind::Control, "add/remove an unreferenced serde struct at the end of models.rs (no binding changes; the visualisation counts type definitions)"),
     ec("no_events", EditKind::Source, "remove / restore every emit call at once (without events no events.ts is generated, and a cache record written then knows no events)"),
+    ec("validator_message", EditKind::Source, "User.score #[validate(range(min = 0, message = \"too small\"))] <-> message = \"must not be negative\" (only the message changes; only Zod mode renders it)"),
     ec("delete_types", EditKind::Delete, "remove types.ts from the output directory"),
     ec("delete_commands", EditKind::Delete, "remove commands.ts from the output directory"),
     ec("delete_events", EditKind::Delete, "remove events.ts from the output directory"),
@@ -116,6 +117,7 @@ pub const E_PAYLOAD_NESTED_RENAME: usize = 25;
 pub const E_VISUALIZE: usize = 26;
 pub const E_UNUSED_TYPE: usize = 27;
 pub const E_NO_EVENTS: usize = 28;
+pub const E_VALIDATOR_MESSAGE: usize = 29;
 
 pub fn edit_index(name: &str) -> Option<usize> {
     EDITS.iter().position(|e| e.name == name)
@@ -229,6 +231,7 @@ pub fn render_sources(m: &Model) -> Vec<(String, String)> {
     }
     md.push_str(&format!("    #[validate(length(min = 1, max = {}))]\n    pub name: String,\n", if m.has(E_VALIDATOR) { 80 } else { 50 }));
     md.push_str("    pub kind: Kind,\n");
+    md.push_str(&format!("    #[validate(range(min = 0, message = \"{}\"))]\n    pub score: i32,\n", if m.has(E_VALIDATOR_MESSAGE) { "must not be negative" } else { "too small" }));
     md.push_str(&format!("    pub tags: Vec<{}>,\n", if m.has(E_FIELD_TYPE) { "u32" } else { "String" }));
     md.push_str("    pub is_active: bool,\n");
     if m.has(E_FIELD_SKIP) {
